@@ -65,6 +65,8 @@ class HostBase:
         self.elem_by_var: Dict[int, Elem] = {}
         self.elem_by_str: Dict[int, Elem] = {}
         self.chars: Dict[Any, SymChar] = {}
+        self.len_syms: Dict[int, List[Any]] = {}
+        self.conversions: Dict[Any, AV] = {}
 
     # ----------------------------------------------------------- utilities
     def raise_(self, name: str, msg: str = "", node: Any = None):
@@ -133,7 +135,9 @@ class HostBase:
         if isinstance(v, Sym):
             k = self.i.kind_of(v)
             if k in ("str", "list", "dict"):
-                return IntV(Lin.var(self.len_var(("sym", v.id), v.label)))
+                lv = self.len_var(("sym", v.id), v.label)
+                self.len_syms.setdefault(lv, [v]) if k == "list" else None
+                return IntV(Lin.var(lv))
             raise self.raise_("TypeError", f"object of kind {k} has no len()", node)
         if isinstance(v, Inst):
             if "__len__" in v.attrs:
@@ -150,6 +154,10 @@ class HostBase:
             if all(e.kind == "yield" for e in v.events):
                 return Const(len(v.events))
             return IntV(Lin.var(self.len_var(("stream", v.id), "stream")))
+        if isinstance(v, AbsQueue):
+            if v.items is not None:
+                return Const(len(v.items))
+            return Term("len", (v,), self.ctx.new_id())
         if isinstance(v, (Opaque, Term)):
             return IntV(Lin.var(self.len_var(("op", v.id), getattr(v, "label", v.__class__.__name__))))
         if isinstance(v, (IntV, EnumV, FuncV, BoundMethod, ClassV)):
@@ -191,6 +199,10 @@ class HostBase:
             return True
         if isinstance(v, (Opaque,)):
             return self.ctx.choose(("truth", "opaque", v.id), [True, False])
+        if isinstance(v, AbsQueue):
+            if v.items is not None:
+                return len(v.items) > 0
+            return self.ctx.choose(("truth", "queue", v.id, len(v.log)), [True, False])
         if isinstance(v, Term):
             return self.ctx.choose(("truth", "term", v.id), [True, False])
         if isinstance(v, (Source, Stream)):
